@@ -99,7 +99,8 @@ def run(chk):
               f'argsort({sortkey})', f'rows sorted by {sortkey}; hid permuted: {"hid" in permuted}', node=sortif)
     # R2 slab slices
     loops = [n for n in fn.body if isinstance(n, ast.For)]
-    load = [l for l in loops if any(isinstance(x, ast.AugAssign) and unparse(x.target) == 'halo_ticker' for x in walk_no_nested(l))]
+    load = [l for l in loops if any((isinstance(x, ast.AugAssign) and unparse(x.target) == 'halo_ticker') or
+                                    (isinstance(x, ast.Assign) and unparse(x.targets[0]) == 'halo_ticker') for x in walk_no_nested(l))]
     if len(load) != 1:
         raise AnalysisError('staging: loading loop not recognised')
     L = load[0]
@@ -126,12 +127,24 @@ def run(chk):
                     bad[a] = f'stored under {gs}, allocated under {ga}'
         incs = [n for n in walk_no_nested(L) if isinstance(n, ast.AugAssign) and unparse(n.target) == ticker]
         okinc = len(incs) == 1 and unparse(incs[0].value) == f'{counts}[eslab - start]' and isinstance(incs[0].op, ast.Add)
+        first_store = min([s.lineno for ss in stores.values() for s in ss] or [10**9])
         last_store = max([s.lineno for ss in stores.values() for s in ss] or [0])
         after = okinc and incs[0].lineno > last_store
-        chk.check(not bad and after, 'C12-R2', HOD, Q, f'{len(allocs_)} arrays filled through [{want}]', '',
-                  f'arrays not filled through the common slab slice: {bad}; ticker advanced once after the stores: {after}', node=L)
         init = [n for n in fn.body if isinstance(n, ast.Assign) and unparse(n.targets[0]) == ticker and unparse(n.value) == '0']
-        chk.check(len(init) == 1 and init[0].lineno < L.lineno, 'C12-R2', HOD, Q, f'{ticker} starts at 0 before the loop', '',
+        okinit = len(init) == 1 and init[0].lineno < L.lineno
+        # alternative: the slab's first row looked up in an exclusive prefix-sum table  T = cumsum(counts) - counts
+        looks = [n for n in walk_no_nested(L) if isinstance(n, ast.Assign) and unparse(n.targets[0]) == ticker]
+        if not incs and len(looks) == 1 and isinstance(looks[0].value, ast.Subscript) and unparse(looks[0].value.slice) == 'eslab - start' \
+                and isinstance(looks[0].value.value, ast.Name):
+            T = looks[0].value.value.id
+            tdef = [n for n in fn.body if isinstance(n, ast.Assign) and unparse(n.targets[0]) == T]
+            okT = len(tdef) == 1 and unparse(tdef[0].value).replace(' ', '') in (f'np.cumsum({counts})-{counts}', f'{counts}.cumsum()-{counts}') and tdef[0].lineno < L.lineno
+            cdefs = [n for n in fn.body if isinstance(n, ast.Assign) and unparse(n.targets[0]) == counts and n.lineno > (tdef[0].lineno if tdef else 0) and n.lineno < L.lineno]
+            after = okT and looks[0].lineno < first_store and not cdefs
+            okinit = after
+        chk.check(not bad and after, 'C12-R2', HOD, Q, f'{len(allocs_)} arrays filled through [{want}]', '',
+                  f'arrays not filled through the common slab slice: {bad}; ticker advanced once after the stores (or looked up in the exclusive prefix sums of {counts}): {after}', node=L)
+        chk.check(okinit, 'C12-R2', HOD, Q, f'{ticker} starts at 0 before the loop', '',
                   f'{ticker} is not initialised to 0 before the loading loop', node=L, nontrivial=False)
     # R3
     asserts = [n for n in fn.body if isinstance(n, ast.Assert) and 'hid[:-1] <= hid[1:]' in unparse(n.test)]
